@@ -209,6 +209,8 @@ class Repo:
                     started = True
                 continue
             if m is None:
+                if not _external_has(c, name):
+                    continue
                 return ("external", c, name)
             found = None
             for st in c.body:
@@ -228,3 +230,38 @@ class Repo:
 
 def source_hash(mod: ModuleInfo, node) -> str:
     return hashlib.sha256(mod.segment(node).encode()).hexdigest()[:16]
+
+
+def _external_has(qual: str, name: str) -> bool:
+    """Does the external class `qual` (dotted, or a bare builtin name) define attribute `name`?
+    Unknown classes are assumed to (conservative)."""
+    import builtins
+    import importlib
+
+    parts = qual.split(".")
+    if len(parts) == 1:
+        obj = getattr(builtins, qual, None)
+        if obj is None:
+            for modname in ("typing", "collections.abc", "abc", "io", "enum"):
+                try:
+                    obj = getattr(importlib.import_module(modname), qual)
+                    break
+                except AttributeError:
+                    continue
+        if obj is None:
+            return True
+        return hasattr(obj, name)
+    for i in range(len(parts) - 1, 0, -1):
+        try:
+            obj = importlib.import_module(".".join(parts[:i]))
+        except Exception:  # noqa: BLE001
+            continue
+        try:
+            for p in parts[i:]:
+                obj = getattr(obj, p)
+        except AttributeError:
+            return True
+        if name in ("__bool__",) and not isinstance(obj, type):
+            obj = getattr(obj, "__origin__", obj)
+        return hasattr(obj, name)
+    return True
